@@ -619,12 +619,27 @@ class SymInt(_Num, int):
         a, b = (t, s.e) if r else (s.e, t)
         return wrap(z3.BV2Int(f(z3.Int2BV(a, 64), z3.Int2BV(b, 64)), True))
 
+    def _bit(s, j):
+        # bit j of a (two's complement, arbitrary precision) integer, in linear arithmetic
+        return (s.e / (1 << j)) % 2
+
+    def _const_bits(s, o):
+        if isinstance(o, int) and not isinstance(o, SymInt) and o >= 0 and bin(o).count('1') <= 40:
+            return [j for j in range(o.bit_length()) if o >> j & 1]
+        return None
+
     def __and__(s, o):
+        js = s._const_bits(o)
+        if js is not None:
+            return wrap(z3.Sum([z3.IntVal(0)] + [s._bit(j) * (1 << j) for j in js]))
         return s._bits(o, lambda a, b: a & b)
 
     __rand__ = __and__
 
     def __or__(s, o):
+        js = s._const_bits(o)
+        if js is not None:
+            return wrap(s.e + z3.Sum([z3.IntVal(0)] + [(1 - s._bit(j)) * (1 << j) for j in js]))
         return s._bits(o, lambda a, b: a | b)
 
     __ror__ = __or__
@@ -938,10 +953,15 @@ def type_shim(x, *a):
     if a:
         return _bi.type(x, *a)
     if isinstance(x, SymReal):
-        return _bi.float
+        return FloatShim
     if isinstance(x, SymInt):
-        return _bi.int
-    return _bi.type(x)
+        return IntShim
+    t = _bi.type(x)
+    if t is _bi.float:
+        return FloatShim
+    if t is _bi.int:
+        return IntShim
+    return t
 
 
 class MathShim:
@@ -1046,3 +1066,46 @@ def _log(x, base=None):
 
 
 MathShim.log = staticmethod(_log)
+
+
+class shims:
+    """Context manager: install the symbolic-aware names into library modules' globals (and restore them).
+
+    type/int/float are always installed together: type_shim returns the shim classes, so `type(x) is int` and
+    `isinstance(x, float)` inside the module both keep their meaning for proxies and for plain numbers.
+    """
+    _math = MathShim()
+
+    def __init__(self, *modules, math=True, extra=None):
+        self.modules = modules
+        self.math = math
+        self.extra = extra or {}
+        self.saved = []
+
+    def __enter__(self):
+        for m in self.modules:
+            names = {'type': type_shim, 'int': IntShim, 'float': FloatShim}
+            if self.math and hasattr(m, 'math'):
+                names['math'] = self._math
+            if hasattr(m, 'isnan'):
+                names['isnan'] = MathShim.isnan
+            names.update(self.extra.get(m.__name__, {}))
+            for k, v in names.items():
+                self.saved.append((m, k, m.__dict__.get(k, _MISSING)))
+                setattr(m, k, v)
+        return self
+
+    def __exit__(self, *a):
+        for m, k, v in reversed(self.saved):
+            if v is _MISSING:
+                try:
+                    delattr(m, k)
+                except AttributeError:
+                    pass
+            else:
+                setattr(m, k, v)
+        self.saved = []
+        return False
+
+
+_MISSING = object()
